@@ -103,17 +103,32 @@ package validator
 //@   trusted "diagnostic text only (range over a map, strings.Join): assumed not to panic"
 //@   nopanic
 
-// ASSUMED frame of the value dispatch (child lookup by decoded key, key
-// shortcuts, additionalProperties): it may remove keys from the required set
-// and fails only with library errors
+// key shortcut matching ranges over a Go map and mutates captured state: outside the
+// verified subset - ASSUMED read-only, fails only with library errors
+//@ func (objectValidator).validateTypeRules(value)
+//@   props C03
+//@   trusted "key shortcut matching (range over a map of required keys; closures with captured counters) is not verified: assumed read-only"
+//@   maypanic
+//@   defines panics ==> (typeis(pv, errors.DocumentError) || errWF(pv))
+//@   defines normal ==> len(result0) <= 1000000000000
+
+// the value dispatch of an object: the child found by the key as written, else a child
+// matched through a key shortcut (its key leaves the required set), else the
+// additionalProperties validator, else an error positioned at the key
 //@ func (*objectValidator).feedObjectValueBegin()
-//@   props C01 C03
-//@   trusted "object value dispatch (string-keyed lookups, key shortcuts, additionalProperties) is not verified; only its frame and error class are assumed"
+//@   props C01 C03 C17
+//@   requires v != nil && lexWF(v.lastFoundKeyLex) && v.lastFoundKeyLex.end + 1 - v.lastFoundKeyLex.begin <= 1000000000000
+//@   assumes typeis(v.node_, *schema.ObjectNode) ==> ival(v.node_) != 0 && consReady(v.node_) && rulesTyped(v.node_) && keysWF(unbox(v.node_, *schema.ObjectNode).keys)
+//@           && len(unbox(v.node_, *schema.ObjectNode).keys.Data) <= len(unbox(v.node_, *schema.ObjectNode).children)
+//@           && (forall i :: 0 <= i && i < len(unbox(v.node_, *schema.ObjectNode).children) ==> unbox(v.node_, *schema.ObjectNode).children[i] != nil)
+//@   assumes hasRule(v.node_, constraint.AdditionalPropertiesConstraintType) ==> typeis(consOf(v.node_).data[constraint.AdditionalPropertiesConstraintType], *constraint.AdditionalProperties) && ival(consOf(v.node_).data[constraint.AdditionalPropertiesConstraintType]) != 0
+//@   assumes v.rootSchema != nil && (forall k string :: dom(v.rootSchema.types, k) ==> v.rootSchema.types[k].schema != nil && v.rootSchema.types[k].schema.rootNode != nil)
 //@   maypanic
 //@   modifies v.requiredKeys[*]
-//@   defines normal ==> !result1
-//@   defines normal ==> (forall k string :: dom(v.requiredKeys, k) ==> old(dom(v.requiredKeys, k)))
-//@   defines panics ==> (typeis(pv, errors.DocumentError) || errWF(pv))
+//@   ensures !typeis(v.node_, *schema.ObjectNode) ==> panics
+//@   ensures normal ==> !result1
+//@   ensures normal ==> (forall k string :: dom(v.requiredKeys, k) ==> old(dom(v.requiredKeys, k)))
+//@   ensures panics ==> (typeis(pv, errors.DocumentError) || errWF(pv))
 
 //@ func (*objectValidator).feedObjectKeyEnd(jsonLexeme)
 //@   props C01
@@ -276,3 +291,22 @@ package validator
 //@   maypanic
 //@   ensures panics
 //@   ensures panics ==> typeis(pv, errors.DocumentError) && unbox(pv, errors.DocumentError).index == lex.begin && unbox(pv, errors.DocumentError).hasIndex && unbox(pv, errors.DocumentError).code == errors.ErrSchemaDoesNotSupportKey
+
+// ---- C01/C03: what an object does with a key the example does not have: the
+// additionalProperties mode selects the validator of the extra value ----
+//@ func newAdditionalPropertiesValidator(node, parentValidator, c)
+//@   props C01 C03
+//@   requires c != nil
+//@   assumes c.mode == constraint.AdditionalPropertiesMustBeUserType ==> typeis(parentValidator, *objectValidator) && ival(parentValidator) != 0 && unbox(parentValidator, *objectValidator).rootSchema != nil
+//@   assumes forall k string :: dom(unbox(parentValidator, *objectValidator).rootSchema.types, k) ==> unbox(parentValidator, *objectValidator).rootSchema.types[k].schema != nil && unbox(parentValidator, *objectValidator).rootSchema.types[k].schema.rootNode != nil
+//@   maypanic
+//@   ensures c.mode != constraint.AdditionalPropertiesMustBeUserType ==> (panics <==> !(c.mode == constraint.AdditionalPropertiesCanBeAny || c.mode == constraint.AdditionalPropertiesMustBeSchemaType || c.mode == constraint.AdditionalPropertiesNotAllowed))
+//@   ensures normal && c.mode != constraint.AdditionalPropertiesMustBeUserType ==> len(result) == 1 && typeis(result[0], *additionalPropertiesValidator) && fresh(ival(result[0]))
+//@           && unbox(result[0], *additionalPropertiesValidator).node_ == node && unbox(result[0], *additionalPropertiesValidator).parentValidator == parentValidator && unbox(result[0], *additionalPropertiesValidator).depth == 0
+//@   ensures normal && c.mode == constraint.AdditionalPropertiesCanBeAny ==> boundis(unbox(result[0], *additionalPropertiesValidator).feedFunc, additionalPropertiesValidator, "feedAny")
+//@   ensures normal && c.mode == constraint.AdditionalPropertiesNotAllowed ==> boundis(unbox(result[0], *additionalPropertiesValidator).feedFunc, additionalPropertiesValidator, "feedNotAllowed")
+//@   ensures normal && c.mode == constraint.AdditionalPropertiesMustBeSchemaType && c.schemaType == "object" ==> boundis(unbox(result[0], *additionalPropertiesValidator).feedFunc, additionalPropertiesValidator, "feedObject")
+//@   ensures normal && c.mode == constraint.AdditionalPropertiesMustBeSchemaType && c.schemaType == "array" ==> boundis(unbox(result[0], *additionalPropertiesValidator).feedFunc, additionalPropertiesValidator, "feedArray")
+//@   ensures normal && c.mode == constraint.AdditionalPropertiesMustBeSchemaType && c.schemaType != "object" && c.schemaType != "array"
+//@           ==> boundis(unbox(result[0], *additionalPropertiesValidator).feedFunc, additionalPropertiesValidator, "feedLiteral") && unbox(result[0], *additionalPropertiesValidator).schemaType == c.schemaType
+//@   ensures panics ==> (typeis(pv, errors.DocumentError) || errWF(pv))
